@@ -59,12 +59,15 @@ def variants(base):
     v = copy.deepcopy(base)
     for lib in v["libs"]:
         for d in lib["defs"]:
-            d["ports"] = d["ports"] + [fdesigns.port("tw-1", 1, "in"), fdesigns.port("tw+1", 1, "in")]
+            d["ports"] = d["ports"] + [fdesigns.port("tw-1", 1, "in"), fdesigns.port("tw+1", 1, "in"),
+                                       fdesigns.port("Q-r", 1, "in"), fdesigns.port("q+r", 1, "in")]
             if d.get("insts"):
                 ref = d["insts"][0]["ref"]
-                d["insts"] = d["insts"] + [{"name": "blk[0].u", "ref": ref}, {"name": "blk(0).u", "ref": ref}]
+                d["insts"] = d["insts"] + [{"name": "blk[0].u", "ref": ref}, {"name": "blk(0).u", "ref": ref},
+                                           {"name": "Stage/ff", "ref": ref}, {"name": "stage.ff", "ref": ref}]
             if d.get("nets") is not None and d.get("insts"):
-                d["nets"] = d["nets"] + [{"name": "n$1", "bits": [[]]}, {"name": "n#1", "bits": [[]]}]
+                d["nets"] = d["nets"] + [{"name": "n$1", "bits": [[]]}, {"name": "n#1", "bits": [[]]},
+                                         {"name": "Bus.x", "bits": [[]]}, {"name": "bus:x", "bits": [[]]}]
         lib["defs"] = lib["defs"] + [{"name": "c-1", "ports": [], "insts": [], "nets": []}, {"name": "c+1", "ports": [], "insts": [], "nets": []}]
     v["libs"] = v["libs"] + [{"name": "l-1", "defs": [{"name": "x", "ports": [], "insts": [], "nets": []}]},
                              {"name": "l+1", "defs": [{"name": "x", "ports": [], "insts": [], "nets": []}]}]
@@ -204,6 +207,15 @@ def worker(case):
                 d2 = lib.definitions[0].clone()
                 d2.name = lib.definitions[0].name + "_copy"
                 lib.add_definition(d2)
+    if kind == "api" and case[2] == "cell-appended-after-export":
+        # exported once; then a new cell is created in the top cell's own library (it lands *after* its user in
+        # that library) and instantiated by the top cell
+        with core.quiet():
+            s.compose(n, os.path.join(scratch, "first_%d.edf" % os.getpid()))
+        top = n.top_instance.reference
+        helper = top.library.create_definition(name="late_helper")
+        helper.create_port(name="h", pins=1)
+        top.create_child(name="late0", reference=helper)
     if kind == "api" and case[2] == "library-appended-after-export":
         # exported once; then a new library is appended (it comes *after* its user in the netlist) and the top
         # cell instantiates one of its cells
@@ -269,6 +281,7 @@ def cases(tier):
         out.append(("api", base, "edited-after-export", "asc"))
         out.append(("api", base, "library-appended-after-export", "asc"))
         out.append(("api", base, "copies-added-after-export", "asc"))
+        out.append(("api", base, "cell-appended-after-export", "asc"))
     for desc in design.family_hier(tier, variants=("plain", "two-libraries", "dangling-nets")):
         if tier == "thorough" or desc[0] in ("K1-chain2", "K8-bus", "K4-wire-only") or sum(desc[1]) % 11 == 0:
             out.append(("hier", desc, "asc"))
